@@ -22,6 +22,16 @@ PROVED_NOTE = ("proved for all Z: offset formula, mirror law, RAM/unmapped, adva
                "specification buses on every bank (computed). Correspondence-only: that mapping.py computes what "
                "Model/Bus.v computes.")
 EXHAUSTIVE = {"quick": False, "thorough": False}
+MANIFEST = {
+    "text": ("Bus laws (offset formula, mirrors, RAM/unmapped, advance, add_0, add_add) proved in Coq for all integers and "
+             "for any bus built by Bus.map with 32K/64K windows; closed forms of both built-in buses proved; the live "
+             "built-in buses are regenerated from /repo each run and shown equal to the specification buses bank by bank. "
+             "The Gallina model of mapping.py is tied to the code by a correspondence run (every bank x boundary offsets x "
+             "increments, random .map configurations) and an independent spec oracle evaluated on the implementation's outputs."),
+    "note": ("Trusted: Coq kernel + vm_compute; table translator; correspondence harness; CPython int semantics as modelled "
+             "(Z.shiftr/land/lor); hand-written Spec/BusLaws.v. No axioms (Print Assumptions: closed under the global context)."),
+    "technique": "Coq proof over a Gallina model + regenerated tables + differential correspondence with vm_compute",
+}
 
 
 def instantiate(gen_q):
